@@ -583,11 +583,13 @@ Section Init.
   Variable V : variant.
   Variable R : registry.
   Variable clean : cleaner.
+  Variable strictext : bool. (* base.py: an unregistered toplevel-property-extension only vouches for extra properties on a
+                                class that has an `extensions` property (true from fix 2c41d60 on) *)
   Variable refuse : bool.   (* parsing.py _refuse_unrequested_custom present (true from fix c6e00f7 on) *)
 
   (* the scan of `extensions` for toplevel-property-extension entries:
      (registered toplevel slots, has_unregistered_toplevel_extension) *)
-  Fixpoint scan_entries (m : list (ustring * jvalue)) (tl : list slot) (unreg : bool) : M (list slot * bool) :=
+  Fixpoint scan_entries (hasext : bool) (m : list (ustring * jvalue)) (tl : list slot) (unreg : bool) : M (list slot * bool) :=
     match m with
     | [] => ret (tl, unreg)
     | (k, e) :: r =>
@@ -597,23 +599,23 @@ Section Init.
                | Some t => str_is t (us "toplevel-property-extension") | None => false end
             then match find_ext R k with
                  | Some x => match x_toplevel x with
-                             | Some sl => scan_entries r (sl ++ tl)%list unreg
-                             | None => guard V S_init_toplevel_props K_AttributeError (scan_entries r tl unreg)
+                             | Some sl => scan_entries hasext r (sl ++ tl)%list unreg
+                             | None => guard V S_init_toplevel_props K_AttributeError (scan_entries hasext r tl unreg)
                              end
-                 | None => scan_entries r tl true
+                 | None => scan_entries hasext r tl (if strictext then hasext || unreg else true)
                  end
-            else scan_entries r tl unreg
-        | _ => guard V S_init_extension_entry K_AttributeError (scan_entries r tl unreg)
+            else scan_entries hasext r tl unreg
+        | _ => guard V S_init_extension_entry K_AttributeError (scan_entries hasext r tl unreg)
         end
     end.
 
-  Definition ext_scan (ext : option jvalue) : M (list slot * bool) :=
+  Definition ext_scan (hasext : bool) (ext : option jvalue) : M (list slot * bool) :=
     match ext with
     | None => ret ([], false)
     | Some e =>
         if negb (truthy e) then ret ([], false)
         else match e with
-             | JObj m => scan_entries m [] false
+             | JObj m => scan_entries hasext m [] false
              | _ => guard V S_init_extensions_items K_AttributeError (ret ([], false))
              end
     end.
@@ -761,7 +763,7 @@ Section Init.
                        else if V S_init_custom_props_keys then fail K_ValueError
                        else ret None        (* falsy non-dict: custom_props.keys() fails below *)
            end ;;
-    scan <- ext_scan (jlookup (us "extensions") kw1) ;;
+    scan <- ext_scan (existsb (fun s => ustr_eqb (s_name s) (us "extensions")) (c_slots c)) (jlookup (us "extensions") kw1) ;;
     let tl := fst scan in
     let unreg := snd scan in
     let propnames := map s_name (c_slots c) in
@@ -902,7 +904,9 @@ Section Init.
     if refuse && negb ac then
       match jlookup (us "custom_properties") kw with
       | Some (JObj (e :: r)) =>
-          if existsb (fun k => negb (mem_name k (map s_name (c_slots c)))) (keys (e :: r))
+          (* certain when a property the class does not define is actually stored (not None / []); before fix
+             f3b82b9 merely naming one sufficed -- `may` covers both readings *)
+          if existsb (fun kv => negb (mem_name (fst kv) (map s_name (c_slots c))) && kept (snd kv)) (e :: r)
           then fail K_CustomContentError else may [K_CustomContentError]
       | _ => ret tt
       end
@@ -969,6 +973,7 @@ Section Store.
   Variable V : variant.
   Variable R : registry.
   Variable clean : cleaner.
+  Variable strictext : bool.
   Variable refuse : bool.
   Variable dec : decoder.
 
@@ -979,7 +984,7 @@ Section Store.
     map (fun r => match r with
                   | Val _ => ((st ++ [x])%list, Added)
                   | Exc e s => (st, Escaped e s)
-                  end) (parse V R clean refuse dec x true false version).
+                  end) (parse V R clean strictext refuse dec x true false version).
 
   (* a list of such inputs, left to right; the first escaping exception stops the loop *)
   Fixpoint store_add_list (st : store) (xs : list jvalue) (version : option ustring) : list (store * added) :=
